@@ -291,39 +291,25 @@ Proof.
 Qed.
 
 (* ------------------------------------------------------------------ E. matching *)
-Definition no_newline (s : name) : Prop := has_newline s = false.
-
-Lemma no_newline_cons c s : no_newline (c :: s) <-> c <> c_newline /\ no_newline s.
-Proof.
-  unfold no_newline, has_newline. cbn [existsb]. rewrite Bool.orb_false_iff, Z.eqb_neq.
-  split; intros [A B]; split; auto.
-Qed.
-
 Lemma star_match_ext k1 k2 m1 m2 s :
-  (forall t, (length t <= length s)%nat -> no_newline t -> k1 t = k2 t) ->
-  (forall c, c <> c_newline -> m1 c = m2 c) ->
-  no_newline s ->
+  (forall t, (length t <= length s)%nat -> k1 t = k2 t) ->
+  (forall c, m1 c = m2 c) ->
   star_match k1 m1 s = star_match k2 m2 s.
 Proof.
-  intros Hk Hm. induction s as [|c s IH]; intros Hs; cbn [star_match].
-  - rewrite (Hk [] (le_n _) Hs). reflexivity.
-  - apply no_newline_cons in Hs as [Hc Hs'].
-    rewrite (Hk (c :: s) (le_n _)) by (apply no_newline_cons; auto).
-    rewrite (Hm c Hc), IH; [reflexivity| |exact Hs'].
+  intros Hk Hm. induction s as [|c s IH]; cbn [star_match].
+  - rewrite (Hk [] (le_n _)). reflexivity.
+  - rewrite (Hk (c :: s) (le_n _)), (Hm c), IH; [reflexivity|].
     intros t Ht. apply Hk. cbn. lia.
 Qed.
 
-Lemma reps_match_fn fts : forall s,
-  no_newline s -> reps_match (map rep_of fts) s = fn_match fts s.
+Lemma reps_match_fn fts : forall s, reps_match (map rep_of fts) s = fn_match fts s.
 Proof.
-  induction fts as [|t fts IH]; intros s Hs; [reflexivity|].
+  induction fts as [|t fts IH]; intros s; [reflexivity|].
   destruct t as [x| | |ng rs]; cbn [map rep_of reps_match fn_match].
-  - destruct s as [|c s]; [reflexivity|]. apply no_newline_cons in Hs as [_ Hs]. rewrite IH by exact Hs. reflexivity.
-  - destruct s as [|c s]; [reflexivity|]. apply no_newline_cons in Hs as [Hc Hs]. rewrite IH by exact Hs.
-    cbn [cset_mem ftok_mem]. apply Z.eqb_neq in Hc. rewrite Hc. reflexivity.
-  - apply star_match_ext; [intros t _ Ht; apply IH; exact Ht| |exact Hs].
-    intros c Hc. cbn. apply Z.eqb_neq in Hc. rewrite Hc. reflexivity.
-  - destruct s as [|c s]; [reflexivity|]. apply no_newline_cons in Hs as [_ Hs]. rewrite IH by exact Hs. reflexivity.
+  - destruct s as [|c s]; [reflexivity|]. rewrite IH. reflexivity.
+  - destruct s as [|c s]; [reflexivity|]. rewrite IH. reflexivity.
+  - apply star_match_ext; [intros t _; apply IH|reflexivity].
+  - destruct s as [|c s]; [reflexivity|]. rewrite IH. reflexivity.
 Qed.
 
 (* the pattern, compiled by the code and run by the regex crate, decides exactly what
@@ -331,9 +317,9 @@ Qed.
 Theorem compile_is_fnmatch p fts :
   fn_tokens p = Some fts -> has_plus p = false ->
   compile p = POk (map rep_of fts) /\
-  forall s, has_newline s = false -> reps_match (map rep_of fts) s = fn_match fts s.
+  forall s, reps_match (map rep_of fts) s = fn_match fts s.
 Proof.
-  intros H NP. split; [|intros s Hs; apply reps_match_fn; exact Hs].
+  intros H NP. split; [|intros s; apply reps_match_fn].
   unfold compile. rewrite (regex_parse_rel fts (fnmatch_to_regex p)); [reflexivity|].
   apply (translate_rel (S (length p))); [exact H|lia|exact NP].
 Qed.
@@ -376,11 +362,11 @@ Proof.
 Qed.
 
 Definition name_ok (n : name) : Prop :=
-  fn_supported n = true /\ has_plus n = false /\ has_newline n = false.
+  fn_supported n = true /\ has_plus n = false.
 
 Lemma name_ok_compiles n : name_ok n -> exists r, compile n = POk r.
 Proof.
-  intros (Hs & Hp & _). unfold fn_supported in Hs. destruct (fn_tokens n) as [fts|] eqn:E; [|discriminate Hs].
+  intros (Hs & Hp). unfold fn_supported in Hs. destruct (fn_tokens n) as [fts|] eqn:E; [|discriminate Hs].
   exists (map rep_of fts). apply (compile_is_fnmatch n fts E Hp).
 Qed.
 
@@ -388,10 +374,10 @@ Qed.
 Lemma pat_match_spec a b : name_ok a -> name_ok b ->
   pat_match a b = if wild a then match fnmatch a b with Some r => r | None => false end else name_eqb a b.
 Proof.
-  intros (Hs & Hp & _) (_ & _ & Hnb). unfold fn_supported in Hs.
+  intros (Hs & Hp) _. unfold fn_supported in Hs.
   destruct (fn_tokens a) as [fts|] eqn:E; [|discriminate Hs].
   destruct (compile_is_fnmatch a fts E Hp) as [C Mt].
-  unfold pat_match, fnmatch. rewrite C, E, (Mt b Hnb). cbn [option_map].
+  unfold pat_match, fnmatch. rewrite C, E, (Mt b). cbn [option_map].
   destruct (wild a) eqn:W; [reflexivity|].
   rewrite (fn_tokens_plain a W) in E. inversion E; subst. apply fn_match_lits.
 Qed.
@@ -452,11 +438,6 @@ Lemma known_plus_false a b : known_plus a b = false ->
 Proof.
   unfold known_plus. rewrite Bool.orb_false_iff. intros [A B]. split; apply existsb_false_all; assumption.
 Qed.
-Lemma known_newline_false a b : known_newline a b = false ->
-  (forall n, In n a -> has_newline n = false) /\ (forall n, In n b -> has_newline n = false).
-Proof.
-  unfold known_newline. rewrite Bool.orb_false_iff. intros [A B]. split; apply existsb_false_all; assumption.
-Qed.
 Lemma names_supported_all l : names_supported l = true -> forall n, In n l -> fn_supported n = true.
 Proof. unfold names_supported. rewrite forallb_forall. auto. Qed.
 
@@ -468,9 +449,9 @@ Theorem partition_match_eq_spec recv loc :
   partition_matched recv loc = Some (dds_partition_match recv loc).
 Proof.
   intros Sr Sl K. unfold known_partition in K.
-  apply Bool.orb_false_iff in K as [K Kn]. apply Bool.orb_false_iff in K as [K Kw].
+  apply Bool.orb_false_iff in K as [K Kw].
   apply Bool.orb_false_iff in K as [Kp Kd].
-  apply known_plus_false in Kp as [Pr Pl]. apply known_newline_false in Kn as [Nr Nl].
+  apply known_plus_false in Kp as [Pr Pl].
   pose proof (names_supported_all _ Sr) as Sr'. pose proof (names_supported_all _ Sl) as Sl'.
   assert (OKr : forall n, In n recv -> name_ok n) by (intros n Hn; repeat split; auto).
   assert (OKl : forall n, In n loc -> name_ok n) by (intros n Hn; repeat split; auto).
@@ -555,10 +536,10 @@ Lemma two_wildcards_refuted :
   known_two_wildcards [[97; 42]] [[97; 98; 42]] = true /\
   partition_matched [[97; 42]] [[97; 98; 42]] = Some true /\ dds_partition_match [[97; 42]] [[97; 98; 42]] = false.
 Proof. vm_compute. auto. Qed.
-(* "a?b" against "a\nb" *)
-Lemma newline_refuted :
-  known_newline [[97; 63; 98]] [[97; 10; 98]] = true /\
-  partition_matched [[97; 63; 98]] [[97; 10; 98]] = Some false /\ dds_partition_match [[97; 63; 98]] [[97; 10; 98]] = true.
+(* regression of d70d0d9: "a?b" and "a*b" match "a<LF>b", as for fnmatch *)
+Example newline_regression :
+  partition_matched [[97; 63; 98]] [[97; 10; 98]] = Some true /\ dds_partition_match [[97; 63; 98]] [[97; 10; 98]] = true /\
+  partition_matched [[97; 42; 98]] [[97; 10; 98]] = Some true /\ known_partition [[97; 63; 98]] [[97; 10; 98]] = false.
 Proof. vm_compute. auto. Qed.
 
 (* non-vacuity of the main theorem *)
